@@ -16,7 +16,8 @@ from .. import core, nets, observe, tla
 LEVEL = "model_checking"
 
 IMPLS = ["auto", "cotengra", "autoray", "recording"]
-SORTS = [None, ("flops", True, True), ("size", True, False), ("root", False, True), ("leaves", True, True), "reset"]
+SORTS = [None, ("flops", True, True), ("size", True, False), ("root", False, True), ("leaves", True, True), "reset",
+         ("contracted-before", "flops"), ("contracted-before", "leaves")]
 
 
 def option_sets(rng, k):
@@ -28,12 +29,23 @@ def option_sets(rng, k):
     return out
 
 
+def arrays_for_state(tree):
+    return [np.ones([tree.size_dict[ix] for ix in term]) for term in tree.inputs]
+
+
 def apply_sort(tree, sort):
     if sort is None:
         return
     if sort == "reset":
         tree.sort_contraction_indices()
         tree.reset_contraction_indices()
+        return
+    if sort[0] == "contracted-before":
+        # the tree has already compiled and run a contraction with other options, and the index orders are then
+        # re-sorted without resetting them first
+        arrays = arrays_for_state(tree)
+        tree.contract(arrays)
+        tree.sort_contraction_indices(priority=sort[1], reset=False)
         return
     pr, oc, cc = sort
     tree.sort_contraction_indices(priority=pr, make_output_contig=oc, make_contracted_contig=cc)
